@@ -39,6 +39,14 @@ structure Interp (σ V : Type) where
   eval : Opts → σ → Int → Nat → σ × Bool
   after : Opts → σ → Int → Nat → σ × Bool
 
+/-- The shipped convergence test over an array of check values, `np.all(near(cur, prev))`: *every* position is
+    `near` its previous value (the driver instantiates `near c p := |c - p| < tol`). -/
+def closeBy {α : Type} (near : α → α → Bool) (cur prev : Array α) : Bool :=
+  (cur.toList.zip prev.toList).all fun (c, p) => near c p
+
+/-- `not np.any(~np.isfinite(v))` over an array of check values. -/
+def allFiniteBy {α : Type} (fin : α → Bool) (v : Array α) : Bool := v.toList.all fin
+
 structure World (σ : Type) where
   user : σ
   status : List Status
